@@ -301,3 +301,55 @@ func VerifC10_NoWrite() {
 	verifrt.Assert(e.Truncate(verifrt.Int64("tsize")) != nil, "nowrite.truncate")
 	verifrt.Assert(im.file.L.Mutations() == 0, "nowrite.underlying-untouched")
 }
+
+// Consecutive calls on one object built by the real constructor: Seek, Read, optionally a ReadAt
+// elsewhere, Read again. The second Read continues where the first ended and returns plaintext,
+// whatever the first call left behind in the object (hidden state is the code's, not the harness's).
+func VerifC10_ReadSequence() {
+	verifrt.NativeUnsupported("AES is replaced by engine-injected cipher stubs")
+	im := verifNewEncImage(false, verifrt.Bound("C10.shortreads", 1, 1))
+	clear := verifrt.Bool("clear")
+	// bound: one fixed layout - plain sectors [0,2), encrypted [2,4), plain [4,6) - and a cursor anywhere in it
+	verifrt.Assume(im.start[0] == 0 && im.end[0] == 2 && im.start[1] == 4 && im.end[1] == 6)
+	verifrt.Assume(im.size == 6*2048)
+	e := verifOpenEnc(im, clear)
+	verifrt.Assume(im.count == 2)
+	cur := verifrt.Int64("cursor")
+	verifrt.Assume(cur >= 0)
+	verifrt.Assume(cur < 7*2048)
+	_, err := e.Seek(cur, io.SeekStart)
+	verifrt.Assert(err == nil, "sequence.seek")
+	n1 := verifrt.Int("n1")
+	verifrt.Assume(n1 >= 1)
+	verifrt.Assume(n1 <= verifrt.Bound("C10.seq.maxbuf1", 48, 2048+64))
+	buf1 := verifrt.Bytes("buf1", n1)
+	got1, err := e.Read(buf1)
+	if cur >= im.size {
+		verifrt.Assert(got1 == 0 && err == io.EOF, "sequence.eof")
+		return
+	}
+	verifrt.Assert(err == nil && got1 >= 1 && got1 <= n1, "sequence.first-count")
+	if verifrt.Bool("readat-between") {
+		off := verifrt.Int64("between.off")
+		verifrt.Assume(off >= 0)
+		verifrt.Assume(off < 1<<41)
+		tmp := verifrt.Bytes("between.buf", 16)
+		_, _ = e.ReadAt(tmp, off)
+	}
+	cur2 := cur + int64(got1)
+	n2 := verifrt.Int("n2")
+	verifrt.Assume(n2 >= 1)
+	verifrt.Assume(n2 <= verifrt.Bound("C10.seq.maxbuf2", 32, 2048+64))
+	buf2 := verifrt.Bytes("buf2", n2)
+	got2, err := e.Read(buf2)
+	if cur2 >= im.size {
+		verifrt.Assert(got2 == 0 && err == io.EOF, "sequence.second-eof")
+		return
+	}
+	verifrt.Assert(err == nil && got2 >= 1 && got2 <= n2 && int64(got2) <= im.size-cur2, "sequence.second-count")
+	verifrt.Assert(int64(e.offset) == cur2+int64(got2), "sequence.cursor")
+	j := verifrt.Int64("j")
+	verifrt.Assume(j >= 0)
+	verifrt.Assume(j < int64(got2))
+	verifrt.Assert(buf2[j] == im.plain(cur2+j, clear), "sequence.second-byte")
+}
